@@ -1,4 +1,4 @@
-CONSTANTS UpperClosed = TRUE FirstClosed = TRUE ContractFaithful = TRUE
+CONSTANTS UpperClosed = TRUE FirstClosed = TRUE ContractFaithful = TRUE InputInverse = TRUE
 INIT Init
 NEXT Next
 INVARIANT Inv
